@@ -16,7 +16,7 @@ func (fx *fnExec) step(in ssa.Instruction, st *State, b *ssa.BasicBlock) {
 		return
 	case *ssa.Alloc:
 		et := in.Type().(*types.Pointer).Elem()
-		if !in.Heap {
+		if !isHeapAlloc(in) {
 			st.Allocs[in] = zeroVal(et)
 			st.Regs[in] = Val{T: in.Type(), Ptr: &MetaPtr{Kind: PLocal, Alloc: in, Root: et}}
 			return
@@ -189,9 +189,13 @@ func (fx *fnExec) step(in ssa.Instruction, st *State, b *ssa.BasicBlock) {
 		fx.oblige(fmt.Sprintf("nopanic.explicit.%d", fx.callCount["np:explicit"]), "nopanic", st, False, in.Pos(), "explicit panic unreachable")
 		st.Reach = False
 	case *ssa.RunDefers:
+		fx.runDefers(in, st)
 		return
 	case *ssa.Defer:
 		if callee := in.Call.StaticCallee(); callee != nil && noopFuncs[callee.String()] {
+			return
+		}
+		if fx.recordDefer(in, st) {
 			return
 		}
 		if fx.abstractOK("defer " + in.Call.String()) {
@@ -586,6 +590,27 @@ func (fx *fnExec) convert(x Val, to types.Type, st *State, pos token.Pos) Val {
 					row := Select(st.heapGet(elemKey(f.Elem(), 0), ArraySort(IntSort, StrArr)), x.C[0])
 					return Val{T: to, C: []*Term{row, x.C[1], x.C[2]}}
 				}
+				if widthOf(f.Elem()) == 32 {
+					// string([]rune): abstract UTF-8 encoding: between one and four bytes per rune; exact
+					// (one byte per rune, same value) when every rune is ASCII
+					arr := Fresh("runesstr", StrArr)
+					ln := Fresh("runeslen", BV64)
+					n := x.C[2]
+					erow := Select(st.heapGet(elemKey(f.Elem(), 0), ArraySort(IntSort, ArraySort(BV64, BVSort(32)))), x.C[0])
+					j := Fresh("j", BV64)
+					inb := And(BVSle(BVI(0, 64), j), BVSlt(j, n))
+					rj := Select(erow, BVAdd(x.C[1], j))
+					asciiJ := BVUlt(rj, BVI(0x80, 32))
+					allASCII := Forall([]*Term{j}, Implies(inb, asciiJ), rj)
+					k := Fresh("k", BV64)
+					inbK := And(BVSle(BVI(0, 64), k), BVSlt(k, n))
+					rk := Select(erow, BVAdd(x.C[1], k))
+					same := Forall([]*Term{k}, Implies(inbK, Eq(Select(arr, k), Extract(7, 0, rk))), Select(arr, k))
+					ex.assume(st, And(BVSle(n, ln), BVSle(ln, BVMul(BVI(4, 64), n)),
+						Implies(allASCII, And(Eq(ln, n), same))))
+					ex.Dropped["string([]rune): UTF-8 encoding abstract for non-ASCII runes (length between n and 4n)"] = true
+					return Val{T: to, C: []*Term{arr, BVI(0, 64), ln}}
+				}
 			case *types.Basic:
 				if f.Info()&types.IsString != 0 {
 					x.T = to
@@ -604,7 +629,8 @@ func (fx *fnExec) convert(x Val, to types.Type, st *State, pos token.Pos) Val {
 				}
 			}
 		}
-		if t.Info()&types.IsFloat != 0 || (fu.(*types.Basic) != nil && fu.(*types.Basic).Info()&types.IsFloat != 0) {
+		fb, _ := fu.(*types.Basic)
+		if t.Info()&types.IsFloat != 0 || (fb != nil && fb.Info()&types.IsFloat != 0) {
 			ex.Dropped["float conversion is uninterpreted"] = true
 			srt := layout(to)[0]
 			return scalar(to, App(DeclUF(fmt.Sprintf("fconv:%s:%s", typeName(from), typeName(to)), srt, x.S().Sort), x.S()))
